@@ -11,13 +11,14 @@ Local Open Scope list_scope.
 Section I.
   Variable V : Type.
   Variable bin : binop -> V -> V -> V.
+  Variable un : unop -> V -> V.
   Notation node := (node V).
   Notation ival := (ival V).
   Notation node_ind' := (PAFC01.Proofs.node_ind' V).
   Variable sigma : nat -> option nat.
 
   Definition mval (args : nat -> option V) (m : string * (nat * node)) : nat * ival :=
-    (fst (snd m), inst V bin args (snd (snd m))).
+    (fst (snd m), inst V bin un args (snd (snd m))).
 
   Definition is_prior_m (m : string * (nat * node)) : bool := is_prior V (snd (snd m)).
   Definition is_const_m (m : string * (nat * node)) : bool := is_const V (snd (snd m)).
@@ -63,7 +64,7 @@ Section I.
   Lemma inst_tuple_eq (args args' : nat -> option V) (ms ms' : list (string * (nat * node))) :
     NoDup (map (member_pos V) ms) ->
     Permutation (map (mval args') ms') (map (mval args) ms) ->
-    inst V bin args' (NTuple ms') = inst V bin args (NTuple ms).
+    inst V bin un args' (NTuple ms') = inst V bin un args (NTuple ms).
   Proof.
     intros ND P. rewrite !PAFC01.Proofs2.inst_tuple. f_equal. f_equal.
     unfold PAFC01.Proofs2.member_vals. symmetry.
@@ -76,7 +77,7 @@ Section I.
   Lemma rebuild_inst (args args' : nat -> option V) : forall n, wf V n ->
     forall n', rebuild V sigma n = Some n' ->
     (forall q, In q (prior_ids V n) -> args' (sd sigma q) = args q) ->
-    inst V bin args' n' = inst V bin args n.
+    inst V bin un args' n' = inst V bin un args n.
   Proof.
     induction n as [p|v|ms _|o ln rn l r IHl IHr|cls ctor attrs IH|attrs IH] using node_ind'; intros W n' E A.
     - simpl in E. destruct (sigma p) as [p'|] eqn:Ep; [|discriminate]. inversion E; subst.
@@ -103,7 +104,7 @@ Section I.
       inversion E; subst. apply wf_model in W.
       unfold prior_ids in A. rewrite walk_model in A.
       cbn [inst]. rewrite !PAFC01.Proofs.inst_attrs_map.
-      assert (X : map (fun kv => (fst kv, inst V bin args' (snd kv))) a' = map (fun kv => (fst kv, inst V bin args (snd kv))) attrs).
+      assert (X : map (fun kv => (fst kv, inst V bin un args' (snd kv))) a' = map (fun kv => (fst kv, inst V bin un args (snd kv))) attrs).
       { clear E. revert a' Ea. induction attrs as [|[k c] a IHa]; intros a' Ea; simpl in Ea.
         - inversion Ea; subst. reflexivity.
         - inversion IH as [|? ? IHc IHrest]; subst. inversion W as [|? ? Wc Wrest]; subst.
